@@ -28,6 +28,79 @@ fn enc_dec(size: usize, key: &[u8], t0: u64, t1: u64, block: &[u8], use_new: boo
     }
 }
 
+// Tables of the Skein 1.3 paper (copied from coq/Spec/Threefish.v, not from /repo): rotation constants of
+// the first (d = 0) and the last (d mod 8 = 7) round, the word permutation pi, C240.
+const C240: u64 = 0x1BD11BDAA9FC1A22;
+fn rot_first_last(size: usize) -> (Vec<u32>, Vec<u32>) {
+    match size {
+        256 => (vec![14, 16], vec![32, 32]),
+        512 => (vec![46, 36, 19, 37], vec![8, 35, 56, 22]),
+        _ => (vec![24, 13, 8, 47, 8, 17, 22, 37], vec![9, 48, 35, 52, 23, 31, 37, 20]),
+    }
+}
+fn pi(size: usize) -> Vec<usize> {
+    match size {
+        256 => vec![0, 3, 2, 1],
+        512 => vec![2, 1, 4, 7, 6, 5, 0, 3],
+        _ => vec![0, 9, 2, 13, 6, 11, 4, 15, 10, 7, 12, 3, 14, 5, 8, 1],
+    }
+}
+/// subkey `s` of the specified key schedule
+fn subkey(size: usize, key: &[u8], t0: u64, t1: u64, s: usize) -> Vec<u64> {
+    let nw = size / 64;
+    let mut k: Vec<u64> = key.chunks(8).map(|c| u64::from_le_bytes([c[0], c[1], c[2], c[3], c[4], c[5], c[6], c[7]])).collect();
+    let parity = k.iter().fold(C240, |a, b| a ^ b);
+    k.push(parity);
+    let t = [t0, t1, t0 ^ t1];
+    (0..nw)
+        .map(|i| {
+            let mut x = k[(s + i) % (nw + 1)];
+            if i == nw - 3 {
+                x = x.wrapping_add(t[s % 3]);
+            } else if i == nw - 2 {
+                x = x.wrapping_add(t[(s + 1) % 3]);
+            } else if i == nw - 1 {
+                x = x.wrapping_add(s as u64);
+            }
+            x
+        })
+        .collect()
+}
+const EDGES: [u64; 8] = [0, 1, u64::MAX, 0x8000_0000_0000_0000, 0x7fff_ffff_ffff_ffff, 0x8000_0000_0000_0001, 0xffff_ffff_0000_0000, 0x0000_0000_ffff_ffff];
+/// a plaintext whose words, after the first subkey, are edge operands of the first MIX
+/// (x0 + x1 with chosen x0, x1), for encryption
+fn craft_plain(rng: &mut Rng, size: usize, key: &[u8], t0: u64, t1: u64) -> Vec<u8> {
+    let nw = size / 64;
+    let k0 = subkey(size, key, t0, t1, 0);
+    let mut out = Vec::new();
+    for i in 0..nw {
+        let e = *rng.pick(&EDGES);
+        out.extend_from_slice(&e.wrapping_sub(k0[i]).to_le_bytes());
+    }
+    out
+}
+/// a ciphertext for which the first inverse MIX of decryption recovers x1 = a chosen edge value
+/// (x1 = rotr(y1 ^ y0, r), x0 = y0 - x1) in every word pair
+fn craft_cipher(rng: &mut Rng, size: usize, key: &[u8], t0: u64, t1: u64) -> Vec<u8> {
+    let nw = size / 64;
+    let nr = if size == 1024 { 80 } else { 72 };
+    let kl = subkey(size, key, t0, t1, nr / 4);
+    let (_, rl) = rot_first_last(size);
+    let mut f = vec![0u64; nw];
+    for j in 0..nw / 2 {
+        let y0 = if rng.chance(1, 2) { *rng.pick(&EDGES) } else { rng.word64() };
+        let x1 = *rng.pick(&EDGES);
+        f[2 * j] = y0;
+        f[2 * j + 1] = y0 ^ x1.rotate_left(rl[j]);
+    }
+    let p = pi(size);
+    let mut out = Vec::new();
+    for i in 0..nw {
+        out.extend_from_slice(&f[p[i]].wrapping_add(kl[i]).to_le_bytes());
+    }
+    out
+}
+
 pub fn run(a: &Args) {
     let seed = a.u64("seed", 1);
     let count = a.u64("count", 100) as usize;
@@ -41,6 +114,7 @@ pub fn run(a: &Args) {
     let mut samples: Vec<String> = Vec::new();
     let mut by_size = [0usize; 3];
     let mut via_new = 0usize;
+    let mut n_crafted = 0usize;
     let mut distinct = std::collections::HashSet::new();
     for i in 0..count {
         let size = [256usize, 512, 1024][i % 3];
@@ -85,6 +159,20 @@ pub fn run(a: &Args) {
             };
             (key, block, t0, t1)
         };
+        // every fourth case: the block is crafted so that the first MIX of encryption resp. the first inverse
+        // MIX of decryption works on edge operands (0, 1, 2^63, 2^64 - 1, ...): value-dependent slips in
+        // mix / inv_mix are otherwise reachable only with probability ~2^-55 per block
+        let mut crafted = "";
+        let block = if i >= 6 && i % 4 == 3 {
+            crafted = "plain-for-first-mix";
+            craft_plain(&mut rng, size, &key, t0, t1)
+        } else if i >= 6 && i % 4 == 1 {
+            crafted = "cipher-for-first-inverse-mix";
+            craft_cipher(&mut rng, size, &key, t0, t1)
+        } else {
+            block
+        };
+        if !crafted.is_empty() { n_crafted += 1; }
         let use_new = i >= 6 && t0 == 0 && t1 == 0;
         if use_new { via_new += 1; }
         let (e, d) = enc_dec(size, &key, t0, t1, &block, use_new);
@@ -102,8 +190,8 @@ pub fn run(a: &Args) {
             distinct.insert((size, key.clone(), t0, t1, block.clone()));
         }
         let js = format!(
-            "{{\"size\":{},\"no_unroll\":{},\"ctor\":\"{}\",\"key\":{},\"t0\":{},\"t1\":{},\"block\":{},\"enc\":{},\"dec\":{}}}",
-            size, nu, if use_new { "NewBlockCipher::new" } else { "with_tweak" }, jstr(&hex(&key)), t0, t1, jstr(&hex(&block)), jstr(&hex(&e)), jstr(&hex(&d))
+            "{{\"size\":{},\"no_unroll\":{},\"ctor\":\"{}\",\"crafted\":\"{}\",\"key\":{},\"t0\":{},\"t1\":{},\"block\":{},\"enc\":{},\"dec\":{}}}",
+            size, nu, if use_new { "NewBlockCipher::new" } else { "with_tweak" }, crafted, jstr(&hex(&key)), t0, t1, jstr(&hex(&block)), jstr(&hex(&e)), jstr(&hex(&d))
         );
         if (i >= 6 && samples.len() < 3) || i == count - 1 {
             samples.push(js.clone());
@@ -135,7 +223,7 @@ pub fn run(a: &Args) {
     let all: Vec<String> = cases.iter().map(|c| c.1.clone()).collect();
     std::fs::write(format!("{}/cases.json", out), format!("[{}]", all.join(",\n"))).unwrap();
     println!(
-        "{{\"evaluations\":{},\"distinct_nontrivial\":{},\"by_size\":{{\"256\":{},\"512\":{},\"1024\":{}}},\"no_unroll\":{},\"constructed_via_new\":{},\"direct_failures\":[{}],\"samples\":[{}]}}",
+        "{{\"evaluations\":{},\"distinct_nontrivial\":{},\"by_size\":{{\"256\":{},\"512\":{},\"1024\":{}}},\"no_unroll\":{},\"constructed_via_new\":{},\"blocks_crafted_for_edge_operands\":{},\"direct_failures\":[{}],\"samples\":[{}]}}",
         count,
         distinct.len(),
         by_size[0],
@@ -143,6 +231,7 @@ pub fn run(a: &Args) {
         by_size[2],
         nu,
         via_new,
+        n_crafted,
         direct_fail.join(","),
         samples.join(",")
     );
